@@ -124,6 +124,32 @@ auto __redu_len(const T &value) -> decltype(value.length()) {
 }
 """
 
+PYMATH_HELPER_SNIPPET = """template <typename A, typename B>
+auto __redu_floordiv(A a, B b) -> decltype(a / b) {
+  typedef decltype(a / b) R;
+  R x = a;
+  R y = b;
+  R q = static_cast<R>(static_cast<long>(x / y));
+  R r = x - q * y;
+  if (r != 0 && ((r < 0) != (y < 0))) {
+    q -= 1;
+  }
+  return q;
+}
+
+template <typename A, typename B>
+auto __redu_mod(A a, B b) -> decltype(a / b) {
+  typedef decltype(a / b) R;
+  R x = a;
+  R y = b;
+  R r = x - static_cast<R>(static_cast<long>(x / y)) * y;
+  if (r != 0 && ((r < 0) != (y < 0))) {
+    r += y;
+  }
+  return r;
+}
+"""
+
 LIST_HELPER_SNIPPET = """template <typename T>
 struct __redu_list {
   T *data;
@@ -3187,5 +3213,10 @@ def emit(ast: Program) -> str:
     parts.append(LOOP_START)
     parts.append("\n".join(loop_lines) if loop_lines else "  // no loop actions")
     parts.append("\n" + LOOP_END)
+
+    body = "".join(parts[1:])
+    if "__redu_floordiv(" in body or "__redu_mod(" in body:
+        # Python semantics for // and % (see parser._binop_c_expr)
+        parts.insert(1, PYMATH_HELPER_SNIPPET + "\n")
 
     return "".join(parts)
